@@ -200,7 +200,7 @@ func confirmPair(p pathSpec, dev twin.Deviation) (twin.PathResult, twin.PathResu
 func run(r *engine.Run) {
 	quick := r.Quick()
 	deadline := r.Deadline(20*gotime.Minute, 60*gotime.Minute)
-	r.Bound = "(plus: a replica that Simulates every alphabet tx and six authority parameter updates on discarded branches before each block) bases {plain, busy}; busy: all sequences of 2 blocks with 0-1 tx from the 90-tx cross-module alphabet (valid + adversarial variants of every message type); plain: 1 block; every map iteration executed in repository code on the block goroutine deviated to every start position (1 deviation); wall clock skewed +-1h; every numeric/decimal/coin module parameter at {smallest, 1, largest of its type, percentage corners} one at a time if accepted by MsgUpdateParams, followed by a 6-block workload"
+	r.Bound = "(plus: a replica that Simulates every alphabet tx and six authority parameter updates on discarded branches before each block, and a replica restarted on its own database before every later block) bases {plain, busy}; busy: all sequences of 2 blocks with 0-1 tx from the 90-tx cross-module alphabet (valid + adversarial variants of every message type); plain: 1 block; every map iteration executed in repository code on the block goroutine deviated to every start position (1 deviation); wall clock skewed +-1h; every numeric/decimal/coin module parameter at {smallest, 1, largest of its type, percentage corners} one at a time if accepted by MsgUpdateParams, followed by a 6-block workload"
 	r.Assumptions = []string{
 		"map iteration order: replica A forces start (bucket 0, offset 0) for every iteration on the block goroutine; replica B deviates one iteration whose range statement is in repository code; iterations in upstream code (SDK, CometBFT, IAVL) are executed canonically in both replicas (thorough deviates a bounded number of them too)",
 		"goroutines: repository consensus code starts none (static scan of go statements, listed in the evidence); goroutines of upstream iterator plumbing are not controlled",
@@ -438,7 +438,7 @@ func run(r *engine.Run) {
 	for _, g := range []string{"", "oracle.request.ok", "oracle.activate.v2", "bandtss.request-signature.ok"} {
 		simIdx = append(simIdx, mkPath(plain, idxPlain, g, "", ""))
 	}
-	simOK := 0
+	simOK, restartOK := 0, 0
 	complete = engine.ParallelFor(int64(len(simIdx)), 0, deadline, func(_ int, j int64) {
 		p := simIdx[j]
 		exclusive.RLock()
@@ -485,16 +485,44 @@ func run(r *engine.Run) {
 				"C02/nondeterminism:discarded-simulation-influences-blocks:"+culprit, fmt.Sprintf("a node that simulated %s before finalizing differs from one that did not: %s", culprit, why))
 			return
 		}
+		// (c3) restart replica: the node process is restarted (new application object on the same database) before every
+		// block after the first; everything it computes must come from committed state
+		withRestart := make([]twin.Block, len(p.blocks))
+		copy(withRestart, p.blocks)
+		for i := 1; i < len(withRestart); i++ {
+			withRestart[i].Restart = true
+		}
+		exclusive.RLock()
+		rr := twin.RunPath(p.base, withRestart, twin.Deviation{Index: -1}, false)
+		exclusive.RUnlock()
+		tally.Eval()
+		if ok, why := twin.Equal(ra, rr); !ok {
+			exclusive.Lock()
+			ra2 := twin.RunPath(p.base, p.blocks, twin.Deviation{Index: -1}, false)
+			rr2 := twin.RunPath(p.base, withRestart, twin.Deviation{Index: -1}, false)
+			exclusive.Unlock()
+			if same, _ := twin.Equal(ra2, rr2); same {
+				tally.Saw("harness-flake:replica-difference-not-reproduced")
+				return
+			}
+			tally.Violate(map[string]any{"base": p.base.Name, "blocks": p.names, "restart_before_blocks": "2.."}, p.names,
+				"C02/nondeterminism:restarted-node-differs:"+p.names[0], fmt.Sprintf("a node restarted between the blocks differs from one that kept running: %s", why))
+			return
+		}
 		dmu.Lock()
 		simOK++
+		restartOK++
 		dmu.Unlock()
 	})
 	if !complete {
 		r.Exhaustive = false
-		r.CapReasons = append(r.CapReasons, "simulation replicas: time cap")
+		r.CapReasons = append(r.CapReasons, "simulation / restart replicas: time cap")
 	}
 	tally.Saw("simulation-replicas-equal")
-	fmt.Printf("[C02] simulation replicas: %d paths x %d simulated txs, %d equal\n", len(simIdx), len(simList), simOK)
+	if restartOK > 0 {
+		tally.Saw("restart-replicas-equal")
+	}
+	fmt.Printf("[C02] simulation replicas: %d paths x %d simulated txs, %d equal; restart replicas: %d equal\n", len(simIdx), len(simList), simOK, restartOK)
 
 	// --- (d) parameter corners ---
 	probe := busy.NewApp()
